@@ -58,13 +58,16 @@ func Sprint(val any) string {
 		return fmt.Sprint(val)
 	}
 	rv := reflect.ValueOf(val)
-	for rv.Kind() == reflect.Ptr && !rv.IsNil() {
+	// (a few levels at most: a pointer type may point to itself - type P *P)
+	for i := 0; i < 4 && rv.Kind() == reflect.Ptr && !rv.IsNil(); i++ {
 		rv = rv.Elem()
 	}
 	switch rv.Kind() {
 	case reflect.Ptr:
-		// (a nil pointer is nothing, like nil itself: fmt would print "<nil>")
-		return ""
+		if rv.IsNil() {
+			// (a nil pointer is nothing, like nil itself: fmt would print "<nil>")
+			return ""
+		}
 	case reflect.Bool, reflect.String,
 		reflect.Int, reflect.Int8, reflect.Int16, reflect.Int32, reflect.Int64,
 		reflect.Uint, reflect.Uint8, reflect.Uint16, reflect.Uint32, reflect.Uint64, reflect.Uintptr,
